@@ -23,11 +23,12 @@ Definition thunk_ok (rid : nat) (keys : list N) (th : thunk) : Prop :=
   | _ => False
   end.
 
+Definition tid_ok (ths : list thunk) (rid : nat) (keys : list N) (tid : nat) : Prop :=
+  exists th, nth_error ths tid = Some th /\ thunk_ok rid keys th.
+
+(* the value and every pending contract of a field *)
 Definition fld_ok (ths : list thunk) (rid : nat) (keys : list N) (f : ifld) : Prop :=
-  match ival f with
-  | None => True
-  | Some tid => exists th, nth_error ths tid = Some th /\ thunk_ok rid keys th
-  end.
+  forall tid, In tid (ftids f) -> tid_ok ths rid keys tid.
 
 Definition coherent (st : state) (rid : nat) : Prop :=
   exists r, nth_error (recs st) rid = Some r /\ NoDup (ikeys r) /\
@@ -57,12 +58,16 @@ Definition abs_thunk (th : thunk) : sbody :=
   | Rev o None _ => abs_body [] o        (* FieldDeps::Unknown: outside the invariant (hook H4) *)
   end.
 
+Definition abs_tid (ths : list thunk) (tid : nat) : sbody :=
+  match nth_error ths tid with
+  | Some th => abs_thunk th
+  | None => SLeaf [] (Num 0)             (* dangling: outside the invariant *)
+  end.
+
 Definition abs_fld (ths : list thunk) (f : ifld) : sfld :=
   {| sprio := iprio f;
-     sval := match ival f with
-             | None => None
-             | Some tid => option_map abs_thunk (nth_error ths tid)
-             end |}.
+     sval := option_map (abs_tid ths) (ival f);
+     sctrs := map (fun kc => (fst kc, abs_tid ths (snd kc))) (ictrs f) |}.
 
 Definition abs_rec (ths : list thunk) (r : irec) : srec :=
   map (fun kf => (fst kf, abs_fld ths (snd kf))) r.
@@ -152,18 +157,35 @@ Proof.
 Qed.
 
 (* ------------------------------------------------------------------------- refinement of reads *)
+Lemma apply_ctrs_fuel : forall cs, apply_ctrs OutOfFuel cs = OutOfFuel.
+Proof. destruct cs as [|[k oc] cs]; reflexivity. Qed.
+
+Lemma ithunk_abs : forall st rid r n tid,
+  nth_error (recs st) rid = Some r ->
+  (forall k, field_via (ithunk n st) st rid k = sfield n (abs_rec (thunks st) r) k) ->
+  tid_ok (thunks st) rid (ikeys r) tid ->
+  ithunk (S n) st tid
+  = seval_body (fun x => var_out (sfield n (abs_rec (thunks st) r) x)) (abs_tid (thunks st) tid).
+Proof.
+  intros st rid r n tid Hr IH (th & Hth & Htok). unfold abs_tid. cbn [ithunk]. rewrite Hth.
+  destruct th as [b|o [d|] [c|]]; cbn [thunk_ok] in Htok; try contradiction; cbn [abs_thunk].
+  - apply ievalb_abs; [exact Htok|]. intros x. reflexivity.
+  - destruct Htok as (-> & Hwf & _). apply ievalb_abs; [exact Hwf|].
+    intros x. unfold scoped, in_deps. rewrite IH. reflexivity.
+Qed.
+
 Theorem override_refines : forall st rid, coherent st rid ->
   forall fuel k, ifield fuel st rid k = sfield fuel (abs st rid) k.
 Proof.
   intros st rid (r & Hr & Hnd & Hok). unfold abs. rewrite Hr. unfold ifield.
   induction fuel as [|n IH]; intros k; unfold field_via; cbn [sfield]; rewrite Hr, slookup_abs_rec;
     (destruct (ilookup k r) as [f|] eqn:El; cbn [option_map]; [|reflexivity]);
-    specialize (Hok k f (ilookup_In _ _ _ El)); unfold fld_ok in Hok; cbn [abs_fld sval];
-    (destruct (ival f) as [tid|]; [|reflexivity]);
-    destruct Hok as (th & Hth & Htok); rewrite Hth; cbn [option_map ithunk]; [reflexivity|].
-  rewrite Hth.
-  destruct th as [b|o [d|] [c|]]; cbn [thunk_ok] in Htok; try contradiction; cbn [abs_thunk].
-  - apply ievalb_abs; [exact Htok|]. intros x. reflexivity.
-  - destruct Htok as (-> & Hwf & _). apply ievalb_abs; [exact Hwf|].
-    intros x. unfold scoped, in_deps. rewrite IH. reflexivity.
+    specialize (Hok k f (ilookup_In _ _ _ El)); unfold fld_ok in Hok; cbn [abs_fld sval sctrs];
+    (destruct (ival f) as [tid|] eqn:Ev; cbn [option_map]; [|reflexivity]); [cbn [ithunk]; apply apply_ctrs_fuel|].
+  assert (Hv : tid_ok (thunks st) rid (ikeys r) tid).
+  { apply Hok. unfold ftids. rewrite Ev. left. reflexivity. }
+  cbv zeta. rewrite (ithunk_abs st rid r n tid Hr IH Hv). f_equal.
+  rewrite map_map. apply map_ext_in. intros [kd ct] Hin. cbn [fst snd]. f_equal.
+  apply (ithunk_abs st rid r n ct Hr IH). apply Hok. unfold ftids. apply in_or_app. right.
+  apply in_map_iff. exists (kd, ct). split; [reflexivity | exact Hin].
 Qed.
